@@ -566,6 +566,12 @@ def split_multiple_persons_names(names):
 
         # Escaped character.
         if char == "\\":
+            # An escaped character is neither whitespace nor part of the ' and ' token,
+            # but it can be the start of the name following the ' and ' token.
+            if step == NEXT_WORD:
+                spans[-1].append(possible_end)
+                spans.append([pos - 1])
+            step = START_WHITESPACE
             try:
                 next(namesiter)
             # If we're at the end of the string, then the \ is just a \.
